@@ -121,7 +121,8 @@ Proof.
     destruct (find_camp _ _ _) as [cl|] eqn:F; [|discriminate].
     destruct (_ && _) eqn:E; [|discriminate]. intros H; inversion H; subst. boolh.
     apply find_camp_In in F. eapply St_Grant; eauto.
-    apply orb_true_iff in H2. destruct H2 as [H2|H2]; apply opt_nat_eqb_eq in H2; auto.
+    match goal with H : opt_nat_eqb _ None || _ = true |- _ =>
+      apply orb_true_iff in H; destruct H as [H|H]; apply opt_nat_eqb_eq in H; auto end.
   - destruct (_ && _) eqn:E; [|discriminate]. intros H; inversion H; subst. boolh. now apply St_BecomeLeader.
   - destruct (_ && _) eqn:E; [|discriminate]. intros H; inversion H; subst. boolh. now apply St_LeaderAppend.
   - (* Replicate *)
